@@ -51,6 +51,16 @@ CHECKS = {
          "A registry built from the harness's own submissions and the observed returns decides: ids strictly increasing and unique, no proposal accepted again while its earlier deal is outstanding, acceptance only if authenticated / own provider / funded / not started, each id activated at most once, by its provider, no later than start, in a sector that outlives it, unactivated deals removed at/after start with collateral burnt. Held on what was explored.",
          "Trusted: MVM semantics; harness signature scheme; activations are injected from miner addresses (real miner path exercised in the miner checks).",
          "DESIGN.md 3/C08"),
+ "C09": ("exploration",
+         "ledger model over raw verifreg + datacap state after every message (supply, balances, minted-burnt from observed calls, verifier caps, registry balance vs unclaimed allocations) + per-allocation automaton",
+         "supply == sum of balances == observed mints - burns; a verifier's cap falls by exactly each grant and the client's balance rises by it; the registry's token balance == total size of unclaimed allocations; every allocation id ends in exactly one of claimed (by its provider, matching data/size/terms, before expiration) or refunded (after expiration, to its client), never both, never twice, ids never reused. Held on what was explored.",
+         "Trusted: MVM; ClaimAllocations is sent from miner addresses directly here (the sealing path is used in C10); harness signature scheme for datacap removals.",
+         "DESIGN.md 3/C09"),
+ "C10": ("exploration",
+         "shadow map (sector -> backing claims) built from observed ClaimAllocations / accepted drops on the real sealing path, compared with sector infos and the registry after every message; directed hostile extension declarations",
+         "For every live sector with verified weight: verified space == sum of its backing claims' sizes, each backing claim still in the registry, names this provider and sector, started no earlier than activation, and term_start+term_min <= expiration <= term_start+term_max; claims dropped only in the final 30 days; term_max never decreases; claims/allocations removed only after expiry. Held on what was explored.",
+         "Trusted: MVM; proofs accepted; ProveReplicaUpdates3 onboarding not exercised; legacy QAP sectors unreachable.",
+         "DESIGN.md 3/C10, 5.5"),
  "C12": ("exploration",
          "online trace monitor + reference model (multisig) over generated propose/approve/cancel/reconfigure histories incl. re-entrant self-calls",
          "Every send leaving a wallet is judged, in execution order inside the invocation tree, against a model built only from observed successful calls (quorum of distinct current signers for exactly that tx, executed once, lock-up respected with an independent vesting computation); signers/threshold/lock/pending state is compared with the model after every message. Held on the histories explored; not a proof.",
